@@ -4,7 +4,8 @@
      background()                       one watcher goroutine per pool id (lines 185-249)
      handleSessionManagerHotRestart     swap of sm.pools[id], parking in sm.reservePools
      checkHotRestart                    completion / time-out of the client side of a hot restart
-     Close                              cancelFunc, wg.Wait, pools[i].close(), parked pools closed
+     Close                              its steps IN THE ORDER OF THE CODE: cancelFunc; wg.Wait; then, under
+                                        sm's lock, pools[i].close() for every i, parked pools closed, reservePools = nil
      streamPool.getOrOpenStream         what GetStream does on the chosen pool
 
    Pool OBJECTS have identity (the watcher keeps the *streamPool it loaded and later stores the
@@ -22,7 +23,7 @@
      WExit     returned
    Timers: [TimerFires] may happen at any step while the manager is not closed.  After cancel the
    timer case can only win the select if it fired before the cancel, which is the interleaving
-   TimerFires-then-CloseBegin; that a fresh timer (rebuildInterval) does not fire before an already
+   TimerFires-then-cancel; that a fresh timer (rebuildInterval) does not fire before an already
    cancelled context is seen is timer behaviour (observed, not proved). *)
 From Coq Require Import List ZArith Bool Arith.
 From Shm Require Import Gen.Consts Model.HotRestart.
@@ -35,6 +36,14 @@ Record pobj := {
   o_slot : nat;       (* ghost: the pool id this object was created for *)
   o_by : Z }.         (* ghost: who created the current session: 0 NewSessionManager, 1 hot restart, 2 watcher *)
 
+(* the statements of SessionManager.Close, one shared-state action each; the closing of sm.pools and of
+   the parked pools happens in ONE critical section of sm's lock (the lock of the hot-restart handler
+   and of its checker), hence one action *)
+Inductive cstep := CCancel | CWait | CCloseAll.
+(* session_manager.go: sm.cancelFunc(); sm.wg.Wait(); sm.Lock(); pools[i].close() for every i; parked pools
+   closed; reservePools = nil; sm.Unlock() *)
+Definition close_prog : list cstep := [CCancel; CWait; CCloseAll].
+
 Inductive wpc := WTop | WSelect | WWait | WCompare | WExit.
 Record watcher := { w_pc : wpc; w_pool : nat }.
 
@@ -46,7 +55,8 @@ Record rstate := {
   closed : bool;                   (* sm.cancelFunc() was called *)
   watchers : list watcher;
   created : nat;                   (* sessions created by watchers *)
-  bad : nat }.                     (* ... of which stored into a pool object that was not sm.pools[id] any more *)
+  bad : nat;                       (* ... of which stored into a pool object that was not sm.pools[id] any more *)
+  cprog : list cstep }.            (* what SessionManager.Close still has to do (the whole body before it is called) *)
 
 Inductive revent :=
 | WLoad (id : nat)
@@ -57,7 +67,7 @@ Inductive revent :=
 | SessionLost (o : nat)                    (* the session of pool object o dies by itself *)
 | HREvent (i : nat) (e : Z) (ok : bool)    (* handleSessionManagerHotRestart for sessionID i, epoch e *)
 | HRTick | HRTimeout
-| CloseBegin | CloseEnd
+| CloseStep                                (* the next statement of SessionManager.Close *)
 | GetStreamR (k : nat).
 
 Definition set_alive (p : pobj) (a : bool) : pobj :=
@@ -82,7 +92,7 @@ Definition watcher_of (s : rstate) (id : nat) : watcher := nth id (watchers s) {
 
 Definition set_watcher (s : rstate) (id : nat) (w : watcher) : rstate :=
   {| objs := objs s; pools := pools s; reserve := reserve s; r_state := r_state s; r_epoch := r_epoch s;
-     closed := closed s; watchers := upd (watchers s) id w; created := created s; bad := bad s |}.
+     closed := closed s; watchers := upd (watchers s) id w; created := created s; bad := bad s; cprog := cprog s |}.
 
 Definition in_range (s : rstate) (id : nat) : bool := (id <? length (watchers s))%nat.
 
@@ -103,20 +113,25 @@ Definition r_enabled (s : rstate) (ev : revent) : bool :=
       (obj_alive s (pool_of s i) ||
        match nth_error (reserve s) i with Some (Some o) => obj_alive s o | _ => false end)
   | HRTick | HRTimeout => r_state s =? st_hr
-  | CloseBegin => negb (closed s)
-  | CloseEnd => closed s && forallb (fun w => match w_pc w with WExit => true | _ => false end) (watchers s)
+  | CloseStep =>
+      match cprog s with
+      | [] => false
+      | CWait :: _ => forallb (fun w => match w_pc w with WExit => true | _ => false end) (watchers s)  (* wg.Wait returns *)
+      | _ :: _ => true
+      end
   | GetStreamR k => (k <? length (pools s))%nat
   end.
 
 Definition new_obj (e : Z) (slot : nat) (by_ : Z) : pobj := {| o_epoch := e; o_alive := true; o_slot := slot; o_by := by_ |}.
 
 Definition hr_event (s : rstate) (i : nat) (e : Z) (ok : bool) : rstate :=
-  if (r_state s =? st_hr) && negb (r_epoch s =? e) then s
+  if closed s then s     (* sm.ctx.Err() != nil: a closed manager takes no part in a hot restart *)
+  else if (r_state s =? st_hr) && negb (r_epoch s =? e) then s
   else
     let s1 := if r_state s =? st_hr then s
               else {| objs := kill_reserved (reserve s) (objs s); pools := pools s;
                       reserve := repeat None (length (pools s)); r_state := st_hr; r_epoch := e;
-                      closed := closed s; watchers := watchers s; created := created s; bad := bad s |} in
+                      closed := closed s; watchers := watchers s; created := created s; bad := bad s; cprog := cprog s |} in
     match nth_error (reserve s1) i with
     | Some (Some _) => s1
     | _ =>
@@ -125,7 +140,7 @@ Definition hr_event (s : rstate) (i : nat) (e : Z) (ok : bool) : rstate :=
                 pools := upd (pools s1) i (length (objs s1));
                 reserve := upd (reserve s1) i (Some (pool_of s1 i));
                 r_state := r_state s1; r_epoch := r_epoch s1; closed := closed s1;
-                watchers := watchers s1; created := created s1; bad := bad s1 |}
+                watchers := watchers s1; created := created s1; bad := bad s1; cprog := cprog s1 |}
     end.
 
 Definition r_apply (s : rstate) (ev : revent) : rstate :=
@@ -154,31 +169,39 @@ Definition r_apply (s : rstate) (ev : revent) : rstate :=
                pools := pools s; reserve := reserve s; r_state := r_state s; r_epoch := r_epoch s; closed := closed s;
                watchers := upd (watchers s) id {| w_pc := WTop; w_pool := w_pool w |};
                created := S (created s);
-               bad := if (w_pool w =? pool_of s id)%nat then bad s else S (bad s) |}
+               bad := if (w_pool w =? pool_of s id)%nat then bad s else S (bad s); cprog := cprog s |}
         end
   | SessionLost o =>
       {| objs := kill_obj (objs s) o; pools := pools s; reserve := reserve s; r_state := r_state s; r_epoch := r_epoch s;
-         closed := closed s; watchers := watchers s; created := created s; bad := bad s |}
+         closed := closed s; watchers := watchers s; created := created s; bad := bad s; cprog := cprog s |}
   | HREvent i e ok => hr_event s i e ok
   | HRTick =>
       if (count_some (reserve s) =? length (pools s))%nat then
         {| objs := objs s; pools := pools s; reserve := reserve s; r_state := st_default; r_epoch := r_epoch s;
-           closed := closed s; watchers := watchers s; created := created s; bad := bad s |}
+           closed := closed s; watchers := watchers s; created := created s; bad := bad s; cprog := cprog s |}
       else s
   | HRTimeout =>
       {| objs := kill_reserved (reserve s) (objs s); pools := pools s; reserve := repeat None (length (pools s));
          r_state := st_default; r_epoch := r_epoch s; closed := closed s; watchers := watchers s;
-         created := created s; bad := bad s |}
-  | CloseBegin =>
-      {| objs := objs s; pools := pools s; reserve := reserve s; r_state := r_state s; r_epoch := r_epoch s;
-         closed := true; watchers := watchers s; created := created s; bad := bad s |}
-  | CloseEnd =>
-      (* after wg.Wait(): sm.pools[i].close() for every i, then every parked pool is closed and
-         sm.reservePools = nil *)
-      {| objs := kill_reserved (reserve s) (kill_reserved (map Some (pools s)) (objs s)); pools := pools s;
-         reserve := repeat None (length (pools s));
-         r_state := r_state s; r_epoch := r_epoch s; closed := closed s; watchers := watchers s;
-         created := created s; bad := bad s |}
+         created := created s; bad := bad s; cprog := cprog s |}
+  | CloseStep =>
+      match cprog s with
+      | [] => s
+      | c :: rest =>
+          match c with
+          | CCancel =>
+              {| objs := objs s; pools := pools s; reserve := reserve s; r_state := r_state s; r_epoch := r_epoch s;
+                 closed := true; watchers := watchers s; created := created s; bad := bad s; cprog := rest |}
+          | CWait =>
+              {| objs := objs s; pools := pools s; reserve := reserve s; r_state := r_state s; r_epoch := r_epoch s;
+                 closed := closed s; watchers := watchers s; created := created s; bad := bad s; cprog := rest |}
+          | CCloseAll =>
+              {| objs := kill_reserved (reserve s) (kill_reserved (map Some (pools s)) (objs s)); pools := pools s;
+                 reserve := repeat None (length (pools s));
+                 r_state := r_state s; r_epoch := r_epoch s; closed := closed s; watchers := watchers s;
+                 created := created s; bad := bad s; cprog := rest |}
+          end
+      end
   | GetStreamR _ => s
   end.
 
@@ -190,10 +213,11 @@ Inductive gs_outcome := GsOk | GsErr | GsBlocked.
 Definition get_stream_r (s : rstate) (k : nat) : gs_outcome :=
   if obj_alive s (pool_of s k) then GsOk else GsErr.
 
-Definition r_init (n : nat) : rstate :=
+Definition r_init_prog (prog : list cstep) (n : nat) : rstate :=
   {| objs := map (fun i => new_obj 0 i 0) (seq 0 n); pools := seq 0 n; reserve := repeat None n;
      r_state := st_default; r_epoch := 0; closed := false;
-     watchers := repeat {| w_pc := WTop; w_pool := 0%nat |} n; created := 0; bad := 0 |}.
+     watchers := repeat {| w_pc := WTop; w_pool := 0%nat |} n; created := 0; bad := 0; cprog := prog |}.
+Definition r_init (n : nat) : rstate := r_init_prog close_prog n.
 
 Definition pending (s : rstate) : nat :=
   length (filter (fun w => match w_pc w with WCompare => true | _ => false end) (watchers s)).
